@@ -9,6 +9,7 @@ import Sm9.Model.Api
 import Sm9.Proofs.LibScalar
 import Sm9.Proofs.FieldProgram
 import Sm9.Proofs.FieldProgram2
+import Sm9.Proofs.FieldProgram2Sqrt
 /-!
 # C07 — Field elements always stay canonical; equality is value equality
 Limb level: `Canon m x := x < m`.  Every arithmetic step of the limb model maps canonical
@@ -65,7 +66,9 @@ register (as in `Fr::pow(self, exp: Fr)`), not a literal; `const v` stands for `
 characters.  **Fq2** has its own instance of the same machine (`Sm9/Proofs/FieldProgram2.lean`, theorems `fq2_program_*`
 below): registers are pairs of Montgomery limbs, the instructions are the ones the public `Fq2` API has
 (`slice` = the strict 64-byte decoder, `add sub mul neg dup`; `mul` is the interleaved `sum_of_products` exactly as
-`Fq2::mul_inplace` calls it); `sqrt` is not an instruction of it (its soundness is C14, on the value level).  Field elements
+`Fq2::mul_inplace` calls it) and, in the extended machine `opsLs`/`opsVs` of `Sm9/Proofs/FieldProgram2Sqrt.lean`, `sqrt`: the
+limb-level `Fq2::sqrt` (`sqrtL`, Tower.lean's algorithm line by line on Montgomery residues) never fails, returns `None`
+exactly when the value-level root does not exist and otherwise a canonical pair denoting it (`fq2_sqrt_refines`).  Field elements
 inside Fq4/Fq12 and point coordinates are not registers of any of these machines (they are covered by the step theorems
 above and by C16 for points).
 -/
@@ -269,6 +272,17 @@ theorem fq2_observe_to_slice {x : Nat × Nat} {a : Fq2} (hx : Fq2Prog.CanonRel2 
     Fq2Prog.toSliceObs2 x = Api.fq2ToSlice a := Fq2Prog.observe_to_slice hx
 theorem fq2_canon_unique {x y : Nat × Nat} {a : Fq2} (hx : Fq2Prog.CanonRel2 x a) (hy : Fq2Prog.CanonRel2 y a) : x = y :=
   Fq2Prog.canonRel2_unique hx hy
+/-- the limb-level `Fq2::sqrt`: total, `None` exactly when the value-level square root is `None`, otherwise canonical and
+    denoting it -/
+theorem fq2_sqrt_refines {x : Nat × Nat} {a : Fq2} (hx : Fq2Prog.CanonRel2 x a) :
+    ∃ res, Fq2Prog.sqrtL x = some res ∧ OptRel Fq2Prog.CanonRel2 res a.sqrt := Fq2Prog.sqrtL_refines hx
+/-- the program theorems for the machine that has every public Fq2 operation incl. `sqrt` -/
+theorem fq2_program_refines_s (prog : List FInstr) (ds : List Fq2) (h : Fq2Prog.frunVs prog = some ds) :
+    ∃ regs, Fq2Prog.frunLs prog = some regs ∧ List.Forall₂ Fq2Prog.CanonRel2 regs ds := Fq2Prog.frun_refines_s prog ds h
+theorem fq2_program_fails_iff_s (prog : List FInstr) : Fq2Prog.frunLs prog = none ↔ Fq2Prog.frunVs prog = none :=
+  Fq2Prog.frun_fails_iff_s prog
+theorem fq2_program_canonical_s (prog : List FInstr) (regs : List (Nat × Nat)) (h : Fq2Prog.frunLs prog = some regs) :
+    ∀ x ∈ regs, x.1 < paramsQ.modulus ∧ x.2 < paramsQ.modulus := Fq2Prog.frun_canonical_s prog regs h
 /-- non-vacuity: decode two elements, multiply -/
 example : Fq2Prog.WellFormed Fq2Prog.demo := by decide
 
